@@ -261,8 +261,10 @@ pub struct DynAcc {
 }
 
 impl Accessor for DynAcc {
+    /// A default (empty) accessor exists; systems nevertheless report their own through
+    /// `System::accessor()`, and that one is what setup and fetch must use.
     fn try_new() -> Option<Self> {
-        None
+        Some(DynAcc { sid: usize::MAX, reads: vec![], writes: vec![], rlog: vec![], wlog: vec![], ctx: Ctx::new(vec![], vec![]), expect: false })
     }
     fn reads(&self) -> Vec<ResourceId> {
         self.reads.iter().map(|k| k.rid()).collect()
@@ -307,6 +309,9 @@ impl<'a> DynamicSystemData<'a> for DynData<'a> {
     type Accessor = DynAcc;
 
     fn setup(acc: &DynAcc, world: &mut World) {
+        if acc.sid != usize::MAX {
+            acc.ctx.states[acc.sid].setup.fetch_add(1, Ordering::SeqCst);
+        }
         if acc.expect {
             return;
         }
@@ -490,12 +495,35 @@ impl<'a> System<'a> for DynSys {
     }
 
     fn setup(&mut self, world: &mut World) {
-        self.acc.ctx.states[self.acc.sid].setup.fetch_add(1, Ordering::SeqCst);
         <DynData as DynamicSystemData>::setup(&self.acc, world);
     }
 
     fn dispose(self, _world: &mut World) {
         self.acc.ctx.states[self.acc.sid].dispose.fetch_add(1, Ordering::SeqCst);
+    }
+}
+
+/// Same system, but it relies on the library's *default* `System::setup` (which must set the
+/// data up through the system's own accessor).
+pub struct DynSysDefaultSetup(pub DynSys);
+
+impl<'a> System<'a> for DynSysDefaultSetup {
+    type SystemData = DynData<'a>;
+
+    fn run(&mut self, d: DynData<'a>) {
+        <DynSys as System<'a>>::run(&mut self.0, d)
+    }
+
+    fn running_time(&self) -> RunningTime {
+        hint_of(self.0.hint)
+    }
+
+    fn accessor<'b>(&'b self) -> AccessorCow<'a, 'b, Self> {
+        AccessorCow::Ref(&self.0.acc)
+    }
+
+    fn dispose(self, _world: &mut World) {
+        self.0.acc.ctx.states[self.0.acc.sid].dispose.fetch_add(1, Ordering::SeqCst);
     }
 }
 
